@@ -95,6 +95,33 @@ CLAIMED["C11"] = (
     "A prior batch without any finite draw is outside the claim and skipped (counted). The ensemble part has a stated statistical resolution.",
     "DESIGN.md §2 C11",
 )
+CLAIMED["C09"] = (
+    "exploration",
+    "property-based testing (Hypothesis): differential (same random_state twice, interleaved global draws) + metamorphic 'the seed in force before still matters' on mixture fits and on twin samplers in bit-identical states",
+    "Generated sampler configurations are constructed and run twice with the same random_state inside one process with arbitrary global draws "
+    "in between (bit-identical histories, weights, evidence required; a different random_state must change them). For every library operation "
+    "named in the property the next global random number after the operation must depend on the seed set before it, and twin samplers whose "
+    "seeds diverge at a generated iteration index must produce different batches from then on.",
+    "Only numpy's global stream is observed (the library uses nothing else). Statistical independence itself is not decidable from samples; the mechanism that could couple runs is what is tested.",
+    "DESIGN.md §2 C09",
+)
+CLAIMED["C10"] = (
+    "exploration",
+    "property-based testing (Hypothesis): metamorphic relation between paired seeded runs with logL and logL+c",
+    "For generated configurations, seeds and shifts c in +-[1e-3,1e3] the two runs must have the same number of iterations, temperatures, "
+    "particles (to 1e-12), call counts, ESS sequence and posterior weights, every recorded log-evidence must shift by beta_t*c and the final one by c.",
+    "A mismatch is re-tested once with the neighbouring seed before it is reported (rounding can flip one accept/reject decision with probability ~1e-13|c|).",
+    "DESIGN.md §2 C10",
+)
+CLAIMED["C13"] = (
+    "exploration",
+    "property-based testing (Hypothesis): differential between evaluation modes under one seed (scalar / vectorised / pool-like object with scripted completion order / pool=1 / real 2-worker pool) + exact call-count invariant at every commit",
+    "Each generated case runs the same seeded sampler under every evaluation mode of its group with a pointwise bit-identical instrumented "
+    "likelihood and compares full histories, weights and evidence bit for bit; at every commit the reported number of calls must equal the "
+    "number of points the instrumented likelihood has seen.",
+    "With a real worker pool evaluations happen in other processes; the count is then compared with the verified in-process twin.",
+    "DESIGN.md §2 C13",
+)
 
 ALL = [f"C{i:02d}" for i in range(1, 21)]
 
